@@ -20,6 +20,13 @@ func init() { hx.Register("C10", Run) }
 
 func Run(c *hx.Ctx) {
 	c03.ModelCheck(c, "C10")
+	// c10r7: request-info flags x end causes (kind flg) — first, while no other fixture of the process is alive (the
+	// proxy-global gauge is shared), on its own random stream
+	if len(c.Args) > 0 && c.Args[0] == "flagsonly" { // development aid
+		RunFlags(c, c.N(40, 300))
+		return
+	}
+	RunFlags(c, c.N(40, 300))
 	if len(c.Args) > 0 && c.Args[0] == "tcponly" { // development aid: only the stream proxy sessions
 		RunTcp(c, c.N(100, 500))
 		return
